@@ -27,7 +27,6 @@ const (
 	sigPrevLeak    = "fill(previous)-split-across-chunks|empty-bucket-filled-with-another-value-than-the-previous-bucket's"
 	sigPrevGroup   = "fill(previous)|empty-bucket-filled-with-a-value-of-the-previous-group"
 	sigLimitCut    = "select-star|limit-smaller-than-series-count|rows-are-not-the-first-of-the-ordered-answer"
-	sigBTMEmpty    = "binary_tree_merge|query-spans-two-or-more-shards|empty-answer"
 	sigBTMPanic    = "binary_tree_merge|selector-over-two-or-more-shards|runtime panic: slice bounds out of range in the merge iterator"
 	sigMixedChunk  = "mixed-layout|aggregate|inner-chunk-smaller-than-record"
 	sigMetaPrev    = "metamorphic-only|desc|fill(previous)|differs-from-the-ascending-answer-reversed"
@@ -133,9 +132,6 @@ func attribute(q *querySpec, cl cell, rows []mrow, schema map[string]byte, obs *
 				}
 			}
 		}
-	}
-	if cl.BTM && len(obs.Series) == 0 && len(base.Series) > 0 {
-		return []finding{{sigBTMEmpty, mm.String()}}
 	}
 	unexplained := []finding{{generic, mm.String()}}
 	if os.Getenv("VERIF_C08_DEBUG") == "2" && qk != (quirks{}) {
